@@ -1,6 +1,7 @@
 package props
 
 import (
+	"bytes"
 	"crypto/elliptic"
 	"crypto/sha256"
 	"fmt"
@@ -250,7 +251,7 @@ func sigsArg(sigs [][][]byte) []any {
 func TestC14Signatures(t *testing.T) {
 	theT = t
 	col := ev.New("C14", "signatures",
-		"rapid: a meta-enabled container with 1..3 placement vectors of 2..5 real member keys and REP 1..4 is committed; signature matrices are generated per vector from {valid member signature, the same member again, a malleated (r,n-s) copy of a member's signature, a non-member's valid signature, a member of another vector, a member's signature of another message, 64 garbage bytes}, short and long matrices; oracle: contract true => reference verifier (REP_i DISTINCT members with a valid signature of msg among sigs[i]) true; honest matrices (REP_i distinct members, REP_i <= |vector|) => contract true; submitObjectPut HALT => reference true and exactly one ObjectPut, honest => HALT; non-trivial = matrix with a duplicate/malleated/foreign element or a short matrix",
+		"rapid: a meta-enabled container with 1..3 placement vectors of 2..5 real member keys and REP 1..4 is committed; signature matrices are generated per vector from {valid member signature, the same member again, a malleated (r,n-s) copy of a member's signature, a non-member's valid signature, a member of another vector, a member's signature of another message, 64 garbage bytes}, short and long matrices, and submissions of a non-minimal re-encoding of the signed meta map (same map, other bytes: must be refused); oracle: contract true => reference verifier (REP_i DISTINCT members with a valid signature of msg among sigs[i]) true; honest matrices (REP_i distinct members, REP_i <= |vector|) => contract true; submitObjectPut HALT => reference true and exactly one ObjectPut, honest => HALT; non-trivial = matrix with a duplicate/malleated/foreign element or a short matrix",
 		"REP >= 1 (as produced from placement policies)")
 	runRapid(t, col, func(rt *rapid.T, h *ev.History) {
 		w := &sigWorld{cntWorld: newCntWorld(1, h, 0, 0)}
@@ -362,6 +363,16 @@ func TestC14Signatures(t *testing.T) {
 			if nv < nvec {
 				h.Mark("short-matrix")
 			}
+			if useSubmit && rapid.IntRange(0, 3).Draw(rt, "reEncoded") == 0 {
+				// the same meta map in another (non-minimal) encoding: nobody signed these bytes
+				if alt := reEncode(msg); alt != nil {
+					msg = alt
+					honest = false
+					desc += " [submitted in a non-minimal encoding of the signed map]"
+					h.Mark("odd-element")
+					h.Mark("re-encoded-message")
+				}
+			}
 			ref := w.reference(msg, sigs)
 			if useSubmit {
 				o := w.c.Invoke([]neotest.Signer{w.owners[1]}, w.cnt, "submitObjectPut", msg, sigsArg(sigs))
@@ -411,6 +422,19 @@ func lens(m [][]*keys.PrivateKey) []int {
 		r[i] = len(m[i])
 	}
 	return r
+}
+
+// reEncode returns the serialized meta map with the one-byte integer of "size" padded to two bytes
+// (7b -> 7b 00): it deserializes to the same map but is a different message.
+func reEncode(msg []byte) []byte {
+	key := []byte{0x28, 0x04, 's', 'i', 'z', 'e', 0x21, 0x01}
+	i := bytes.Index(msg, key)
+	if i < 0 || i+len(key) >= len(msg) || msg[i+len(key)] >= 0x80 {
+		return nil
+	}
+	out := append([]byte{}, msg[:i+len(key)-1]...)
+	out = append(out, 0x02, msg[i+len(key)], 0x00)
+	return append(out, msg[i+len(key)+1:]...)
 }
 
 // metaInfo builds the serialized object meta map submitObjectPut expects.
